@@ -447,7 +447,8 @@ def gen_creation(rng: random.Random, p: int) -> tuple[int | None, int, str, str,
             return align, now, "tz-other-dst-phase", phase_kind, zone
         zone = rng.choice(FIXED_ZONES)
         align = us_of(datetime(2024, 3, 1, tzinfo=timezone.utc)) + rng.randrange(10**9)
-        now = align + rng.randrange(10**5) * p + phase
+        # (stay within a few weeks: time_machine keeps the wall clock as float seconds, exact to 1 µs only up to ~2040)
+        now = align + rng.randrange(max(1, min(10**5, 60 * 86_400_000_000 // p))) * p + phase
         return align, now, "tz-fixed-offset", phase_kind, zone
     if kind == "epoch":
         align = 0
